@@ -95,6 +95,12 @@ class Ghost:
         self.joining = []       # (connection, was it eligible as a child when it connected)
         self.snapshot()
 
+    def session_boundary(self):
+        """the server session ends / a new one starts: what was told to the server was written on the connection of
+        that session; a new session knows nothing of it"""
+        self.consume()
+        self.server = ServerView()
+
     def on_potential_parents(self, names):
         self.pp_ref.extend(names)
 
@@ -111,7 +117,15 @@ class Ghost:
             pv = View(dn.parent.branch_level, dn.parent.branch_root)
             self.peer_view[dn.parent.connection] = pv
         lvl, root, search = position(w.own, pv)
-        self.server = ServerView(lvl, root, search)
+        if dn._session is not None:
+            # "the server was told the position": let the real code tell it once, so that whatever the code itself
+            # remembers about its last notification is consistent with the assumed pre-state; the record of the
+            # current session then holds the derived position
+            w.run(dn._notify_server_of_parent())
+            self.consume()
+            self.server = ServerView(lvl, root, search)
+        else:
+            self.server = ServerView()       # no session: nobody was told anything
         for ch in dn.children:
             self.told[ch.connection] = View(lvl, root)
         self.accept_ref = dn._accept_children
@@ -249,7 +263,7 @@ class Ghost:
 
 PEER_EVENTS = ('level', 'root', 'close')
 GLOBAL_EVENTS = ('incoming', 'outgoing', 'pp_list', 'user_stats', 'min_speed', 'speed_ratio', 'reset',
-                 'session_destroyed', 'session_initialized')
+                 'session_destroyed', 'session_initialized', 'relogin')
 
 
 def apply_event(c, w: World, g: Ghost, kind, conn=None, tag='', stall_new=0, via='event'):
@@ -308,7 +322,16 @@ def apply_event(c, w: World, g: Ghost, kind, conn=None, tag='', stall_new=0, via
     elif kind == 'session_destroyed':
         g.min_speed_ref = g.ratio_ref = None      # the server's parameters die with the connection
         w.ev_session_destroyed()
+        g.session_boundary()
     elif kind == 'session_initialized':
+        g.session_boundary()
+        w.ev_session_initialized()
+    elif kind == 'relogin':
+        # the server connection is lost and the client logs in again; the distributed connections are independent of
+        # the server connection and stay as they are
+        g.min_speed_ref = g.ratio_ref = None
+        w.ev_session_destroyed()
+        g.session_boundary()
         w.ev_session_initialized()
     else:
         raise symex.HarnessError(kind)
@@ -385,7 +408,7 @@ def h_step(c, roles, session=True, kinds=None, vias=('event', 'accept', 'indirec
         live_idx = [i for i, r in enumerate(roles) if r != 'absent']
         ks = list(kinds) if kinds else list(PEER_EVENTS + GLOBAL_EVENTS)
         ks = [k for k in ks if not (k == 'session_initialized' and session)
-              and not (k == 'session_destroyed' and not session)
+              and not (k in ('session_destroyed', 'relogin') and not session)
               and not (k in PEER_EVENTS and not live_idx)]
         kind = c.pick(ks, 'event')
         sender_idx = c.pick(live_idx, 'sender') if kind in PEER_EVENTS else None
@@ -416,7 +439,7 @@ def h_step(c, roles, session=True, kinds=None, vias=('event', 'accept', 'indirec
 # it triggered while the second event is handled; then the socket recovers.  Every clause at the end.
 # -------------------------------------------------------------------------------------
 
-OVERLAP_EVENTS = ('level', 'root', 'close', 'incoming', 'reset')
+OVERLAP_EVENTS = ('level', 'root', 'close', 'incoming', 'reset', 'relogin')
 
 
 def h_overlap(c, roles, stall, e1):
@@ -587,6 +610,55 @@ def h_pp_cache(c, lists, via='accept'):
 
 
 # -------------------------------------------------------------------------------------
+# H2c: the server connection is lost and the client logs in again (from the constructor state, through the real
+# entry points).  parent=False: still looking for a parent.  parent=True: a parent was found through the real path
+# (PotentialParents -> outgoing connection -> level, root with symbolic values) and survives the loss of the server
+# (distributed connections do not depend on the server connection), optionally with a child.  `mid`: what happens
+# while there is no session.  After the new session is initialised its record must hold the derived position.
+# -------------------------------------------------------------------------------------
+
+def h_relogin(c, parent=False, child=False, mid='none'):
+    with IntShim(c.symbolic):
+        w = World(c, with_session=False)
+        g = Ghost(c, w)
+        dn = w.dn
+
+        def step(kind, conn=None, **kw):
+            ev = ev_sig(dn, kind, conn)
+            r = apply_event(c, w, g, kind, conn, tag=f'_{kind}', **kw)
+            g.check(ev)
+            return r
+        step('session_initialized')
+        pconn = None
+        if parent:
+            name = nm(c, 1)
+            g.on_potential_parents([name])
+            w.deliver(PotentialParents.Response([PotentialParent(name, '1.2.3.4', 1234)]), w.server)
+            g.check(['pp_list', '-', 'no_parent', 'session'])
+            step('connect_ok')
+            pconn = w.conns[-1]
+            step('level', pconn)
+            if dn.parent is None:
+                step('root', pconn)
+            if dn.parent is None or dn.parent.connection is not pconn:
+                w.cleanup()
+                return          # the root named equals what level 0 implied etc.: no parent on this path
+            c.reach('has_parent')
+        if child:
+            step('incoming', via='accept')
+        step('session_destroyed')
+        if mid == 'parent_level':
+            step('level', pconn)
+        elif mid == 'parent_lost':
+            step('close', pconn)
+        elif mid == 'incoming':
+            step('incoming', via='indirect')
+        step('session_initialized')
+        c.reach('relogged_in')
+        w.cleanup()
+
+
+# -------------------------------------------------------------------------------------
 # H3: the child limit derived from symbolic speed / min speed / ratio governs admission
 # -------------------------------------------------------------------------------------
 
@@ -670,7 +742,10 @@ META = {
                        'branch level announced by a peer / held by the parent (Int 0..2^32-2)', 'branch root tokens (6 values incl. own name)',
                        'user name tokens of connections and of potential-parent entries (5 values)', 'upload speed (uint32)',
                        'parent_min_speed (uint32)', 'parent_speed_ratio (1..2^32-1)', '_max_children (uint32)', '_accept_children (Bool)'],
-    'discriminants': ['how an incoming peer reaches us: bare PeerInitializedEvent / real accept path / real server-relayed path (ConnectToPeer)',
+    'discriminants': ["event 'relogin' (session destroyed + new session initialised, distributed connections untouched) in the step and overlap alphabets",
+                      'relogin harness: parent found or not (through the real path, symbolic level / root), child present, what happens while there is no session '
+                      '(nothing / parent re-announces / parent lost / a peer joins)',
+                      'how an incoming peer reaches us: bare PeerInitializedEvent / real accept path / real server-relayed path (ConnectToPeer)',
                       'pp_cache harness: lengths of the PotentialParents lists (also crossing the 20-entry cache)',
                       'role of each of the 3..4 peers (absent / candidate / child / parent / connecting)', 'event kind (12)', 'sender',
                       'session present or not', 'which of level/root the sender announced before', 'length of the potential-parent cache (0..2) and of a list (1..2)',
@@ -689,7 +764,11 @@ META = {
                 'IEEE double rounding in _calculate_max_children (exact rationals in the encoding)',
                 'more than 4 peers / sequences longer than the bound from the constructor state (the one-step harness covers any length, relative to its invariant)',
                 'parent inactivity timeout (not implemented in distributed.py)'],
-    'assumptions': ['no remote peer carries the logged-in user name as its connection user name',
+    'assumptions': ['"told to the server" = written on the server connection of the CURRENT session: the observer forgets its record when the session is '
+                    'destroyed and when a new one is initialised',
+                    'one-step pre-state with a session: the real _notify_server_of_parent() is run once before the event (the server WAS told), so that '
+                    'anything the code itself remembers about its last notification agrees with the assumed pre-state',
+                    'no remote peer carries the logged-in user name as its connection user name',
                     'one-step harness invariant: parent not in children; parent and children registered in distributed_peers with CONNECTED type-D connections that are in Network.peer_connections; '
                     'the parent has announced level and root; server and every child were last told the position derived from the parent'],
 }
@@ -742,6 +821,11 @@ def jobs(tier):
         for via in ('accept', 'indirect'):
             out.append({'harness': 'pp_cache', 'fn': h_pp_cache, 'params': {'lists': lists, 'via': via},
                         'requires': ['child', 'not_child', 'cache_overflowed' if sum(lists) > POTENTIAL_PARENTS_CACHE_SIZE else 'cache_not_full']})
+    for par in (False, True):
+        for child in (False, True):
+            for mid in (['none'] + (['parent_level', 'parent_lost'] if par else []) + ([] if tier == 'quick' else ['incoming'])):
+                out.append({'harness': 'relogin', 'fn': h_relogin, 'params': {'parent': par, 'child': child, 'mid': mid},
+                            'requires': ['relogged_in'] + (['has_parent'] if par else [])})
     ff_roles = [['parent', 'child', 'child', 'child']] if tier == 'quick' else \
         [['parent', 'child', 'child', 'child'], ['child', 'parent', 'child', 'child'], ['parent', 'child', 'child', 'cand']]
     for t in ff_roles:
